@@ -87,6 +87,8 @@ class Types:
                 return cv + cident(cand)
         for a, b in BASIC:
             t = re.sub(r'(?<![\w:])' + re.escape(a) + r'(?![\w:])', b, t)
+        mo = OSTREAM_RE.match(t)
+        if mo: return cv + 'struct std_ostream_' + cident(mo.group(1))
         if t in ('std::basic_string<char>', 'std::string'): raise Unsupported('type std::string')
         if '<' in t or '::' in t: raise Unsupported('type ' + t)
         return cv + t
@@ -182,6 +184,7 @@ def abbrev(pt):
     return pre + 'p' * n + t
 
 VECQ = 'std::vector<ST::string>'
+OSTREAM_RE = re.compile(r'^std::basic_ostream<\s*(\w+)\s*(?:,\s*(?:std::)?char_traits<\s*\w+\s*>\s*)?>$')
 NOTHROW_EXTERNALS = ('copy', 'move', 'assign', 'compare', 'find', 'length', 'lt', 'eq')
 LIBC = ('strtol', 'strtoll', 'strtoul', 'strtoull', 'strtod', 'strtof', 'snprintf', 'fwrite', 'fputc', 'abort', 'fprintf', 'memcpy', 'memset', 'memchr', 'strlen')
 
@@ -793,6 +796,13 @@ class Emitter:
             obj = callee['inner'][0]
             mid = callee.get('referencedMemberDecl')
             if mid not in self.ix.funcs and self.is_class_type(self.qt(obj) or '') == VECQ: return self.vector_call(callee, obj, args)
+            mo = OSTREAM_RE.match(re.sub(r'\b(const|class|struct)\b', '', (self.qt(obj) or '')).strip())
+            if mid not in self.ix.funcs and mo and callee.get('name') in ('write', 'put'):
+                # std::basic_ostream<T>::write / put: external; contract stubs os_write_<T> / os_put_<T> (append the given units to the stream's log)
+                o = self.e(obj); sp = o[2:-1] if (o.startswith('(*') and o.endswith(')') and self.balanced(o[2:-1])) else '&' + o
+                stub = 'os_%s_%s' % (callee['name'], cident(mo.group(1)))
+                self.externals.setdefault(stub, None)
+                return '%s(%s)' % (stub, ', '.join([sp] + [self.e(a) for a in args]))
             if mid not in self.ix.funcs: raise Unsupported('member call to unknown ' + callee.get('name', '?'))
             fid = mid
             o = self.e(obj)
@@ -1371,7 +1381,7 @@ class Extraction:
         objs = load_objs(dump_path)
         for o in objs:
             # explicit instantiations `template class ST::buffer<T>;` are printed without their namespace context
-            ctx = ['ST'] if (o.get('kind') == 'ClassTemplateSpecializationDecl' and o.get('name') == 'buffer') else []
+            ctx = ['ST'] if (o.get('kind') == 'ClassTemplateSpecializationDecl' and o.get('name') == 'buffer') else ['_ST_PRIVATE'] if (o.get('kind') == 'ClassTemplateSpecializationDecl' and o.get('name') == 'ostream_format_writer') else []
             self.ix.walk(o, ctx)
         self.ix.resolve_out_of_line(objs)
         self.ix.add_foreign_vector()
